@@ -244,8 +244,9 @@ ClosureBody(in, ret, out) ==
           LET old == At(in.vals, n, i, j)  new == At(out.vals, n, i, j) IN
           IF i \in others /\ j \in others /\ i # j
           THEN /\ new >= old
-               /\ ((\A p \in ports : At(in.vals, n, i, p) = 0) \/ (\A p \in ports : At(in.vals, n, p, j) = 0)) => new = old
-               /\ (\E p \in ports : At(in.vals, n, i, p) > 0 /\ At(in.vals, n, p, j) > 0) => new > 0
+               /\ (in.objs[i] # NULLOBJ /\ in.objs[j] # NULLOBJ) =>       \* (rows of NULLed objects: not described)
+                  /\ ((\A p \in ports : At(in.vals, n, i, p) = 0) \/ (\A p \in ports : At(in.vals, n, p, j) = 0)) => new = old
+                  /\ (\E p \in ports : At(in.vals, n, i, p) > 0 /\ At(in.vals, n, p, j) > 0) => new > 0
           ELSE new = old
 
 ClosureRel(in, ret, out) == IF HasBit(in.kind, VAL_BW) THEN ClosureBody(in, ret, out) ELSE ret = -1 \/ ClosureBody(in, ret, out)
